@@ -705,6 +705,9 @@ class Interp(Analyzer):
                 m = 1 << lb_.k
                 if au * m <= thi:
                     return ('int', la.scale(m))
+                # a constant left shift that can push set bits out of the type (no overflow check in Rust): recorded per function
+                if frame is not None and getattr(self, 'lossy_shifts', None) is not None and lb_.k > 0:
+                    self.lossy_shifts.setdefault(frame.body.path, []).append((ty, lb_.k, al, au, getattr(self, '_cur_span', None)))
                 bits = {'u8': 8, 'u16': 16, 'u32': 32, 'u64': 64, 'usize': 64, 'u128': 128}.get(ty)
                 if bits:
                     va = st.values(la)
@@ -1707,6 +1710,7 @@ def new_analyzer(prog, **kw):
     an.call_probes = {}
     an.call_hooks = {}
     an.lossy_casts = {}
+    an.lossy_shifts = None      # set to {} by a client that wants them recorded
     an._trait_cache = {}
     an._leaf = {}
     an.bitdef = {}
